@@ -63,6 +63,58 @@ ASSUMPTIONS = ["single host task; task-group children are not modelled",
                "busy-loop compression rule K"]
 
 TICK = 2.0 ** -3
+
+
+def params():
+    """Gen/ParamsC13.v: does CancelScope.__exit__ take back the cancel requests no CancelledError accounted for
+    (repair of finding C13-F1)?  Fail closed: any loop in __exit__ other than exactly
+        while self.__host_task_cancel_calls: self.__host_task_cancel_calls -= 1; host_task.uncancel()
+    directly inside `if self.__cancel_called:` is rejected."""
+    import ast
+    import os
+
+    from common import runner
+
+    path = os.path.join(runner.REPO, _T)
+    try:
+        tree = ast.parse(open(path).read())
+    except Exception as exc:
+        raise runner.TranslateError(f"cannot parse tasks.py: {exc}")
+    fn = None
+    for cls in tree.body:
+        if isinstance(cls, ast.ClassDef) and cls.name == "CancelScope":
+            for it in cls.body:
+                if isinstance(it, ast.FunctionDef) and it.name == "__exit__":
+                    fn = it
+    if fn is None:
+        raise runner.TranslateError("CancelScope.__exit__ not found")
+    loops = [n for n in ast.walk(fn) if isinstance(n, (ast.While, ast.For, ast.AsyncFor))]
+    if not loops:
+        flag = False
+    else:
+        ok = False
+        if len(loops) == 1 and isinstance(loops[0], ast.While):
+            wl = loops[0]
+            holder = [n for n in fn.body if isinstance(n, ast.If) and wl in n.body]
+            t = wl.test
+            if (holder and isinstance(holder[0].test, ast.Attribute) and holder[0].test.attr == "__cancel_called"
+                    and isinstance(t, ast.Attribute) and t.attr == "__host_task_cancel_calls" and not wl.orelse
+                    and len(wl.body) == 2
+                    and isinstance(wl.body[0], ast.AugAssign) and isinstance(wl.body[0].op, ast.Sub)
+                    and isinstance(wl.body[0].target, ast.Attribute) and wl.body[0].target.attr == "__host_task_cancel_calls"
+                    and isinstance(wl.body[0].value, ast.Constant) and wl.body[0].value.value == 1
+                    and isinstance(wl.body[1], ast.Expr) and isinstance(wl.body[1].value, ast.Call)
+                    and isinstance(wl.body[1].value.func, ast.Attribute) and wl.body[1].value.func.attr == "uncancel"
+                    and isinstance(wl.body[1].value.func.value, ast.Name) and wl.body[1].value.func.value.id == "host_task"
+                    and not wl.body[1].value.args):
+                # it must come after the cancelled_caught computation and not be nested deeper
+                idx = holder[0].body.index(wl)
+                ok = idx >= 1
+        if not ok:
+            raise runner.TranslateError("unrecognised loop in CancelScope.__exit__")
+        flag = True
+    return ("(* does CancelScope.__exit__ take back leftover cancel requests (repair of finding C13-F1)? *)\n"
+            f"Definition exit_takes_back_leftover : bool := {'true' if flag else 'false'}.\n")
 FUEL = 6000
 MAX_LOOP_STEPS = 3000
 
@@ -493,9 +545,9 @@ def oracle(inp):
                 (enter if nodes[e[1]][0][0] == 6 else start)[e[1]] = e[2]
             elif e[0] == 1 and nodes[e[1]][0][0] == 2 and nodes[e[1]][0][2] > 0:
                 node, path = nodes[e[1]]
+                if any(q[0] == 7 for q in path):
+                    continue    # the whole task is shielded there, including cancellations of scopes inside the shield
                 for q in reversed(path):
-                    if q[0] == 7:
-                        break
                     if q[0] == 6 and q[4] and q[1] in enter:
                         dl = enter[q[1]] + q[4][0]
                         if dl < e[2]:
